@@ -97,7 +97,9 @@ impl<'t, 'a> ArrGen<'t, 'a> {
     }
 
     fn target(&mut self, x: usize) -> (Primary, usize) {
-        let depth = self.t.weighted(&[20, 55, 20, 5]);
+        let depth = self.t.weighted(&[20, 55, 19, 5, 1]);
+        // now and then deeper than the interpreter's inline subscript capacity (8)
+        let depth = if depth == 4 { 8 + self.t.pick(3) } else { depth };
         let mut p = pvar(&self.vars[x].clone());
         for _ in 0..depth {
             let i = self.index();
@@ -168,6 +170,8 @@ impl<'t, 'a> ArrGen<'t, 'a> {
                     1 => Some(PushRhs::List(vec![self.scalar()])),
                     2 => {
                         let n = 2 + self.t.pick(3);
+                        // now and then more values than the interpreter's inline list capacity (8)
+                        let n = if n == 4 && self.t.chance(1, 5) { 9 + self.t.pick(4) } else { n };
                         let mut es: Vec<Expr> = (0..n - 1).map(|_| self.scalar()).collect();
                         if self.t.chance(1, 3) {
                             self.labels.insert("store_copy");
@@ -379,6 +383,7 @@ impl<'t, 'a> ArrGen<'t, 'a> {
             match self.t.weighted(&[70, 15, 15]) {
                 0 => {
                     let n = self.t.pick(6);
+                    let n = if n == 5 && self.t.chance(1, 4) { 9 + self.t.pick(30) } else { n };
                     if n == 0 {
                         init.push(Stmt::Push { array: pvar(&v), value: None });
                     } else {
